@@ -359,6 +359,129 @@ def run_pool_history(hist, tier):
     return v
 
 
+# -- the BatteryPool object itself: aggregators are created lazily, on first use -------------------------------------
+
+OBJ_EVENTS = [("status", (9, 19)), ("status", (9,)), ("status", (19,)), ("use", "cap"), ("use", "soc"), ("use", "bounds")]
+OBJ_DATA = {9: dict(soc=50.0, cap=1000.0, sl=20.0, su=80.0, iu=1000.0, il=-1000.0), 19: dict(soc=35.0, cap=3000.0, sl=20.0, su=80.0, iu=500.0, il=-500.0)}
+
+
+def run_pool_object_history(hist):
+    """A real BatteryPool over a real BatteryPoolReferenceStore (fake microgrid API, harness-side status channel).
+    Both batteries stream complete data all the time; events: the pool status names a working set, or a metric of the
+    pool is used for the first time (which creates its aggregator).  After every event each metric in use must show the
+    aggregate of the batteries that are working *now*."""
+    from frequenz.channels import Broadcast
+    from frequenz.client.microgrid import Component, ComponentCategory, Connection, InverterType
+
+    from frequenz.sdk._internal._channels import ChannelRegistry
+    from frequenz.sdk.microgrid._power_distributing._component_status import ComponentPoolStatus
+    from frequenz.sdk.timeseries.battery_pool._battery_pool import BatteryPool
+    from frequenz.sdk.timeseries.battery_pool._battery_pool_reference_store import BatteryPoolReferenceStore
+
+    from ..vloop import virtual_loop
+
+    ids = [9, 19]
+    comps = {Component(1, ComponentCategory.GRID), Component(2, ComponentCategory.METER)}
+    conns = {Connection(1, 2)}
+    for b in ids:
+        comps |= {Component(b - 1, ComponentCategory.INVERTER, InverterType.BATTERY), Component(b, ComponentCategory.BATTERY)}
+        conns |= {Connection(2, b - 1), Connection(b - 1, b)}
+    v = []
+    with virtual_loop(wall=True) as loop, fakes.fake_microgrid(comps, conns) as cm:
+        api = cm.api_client
+        status = Broadcast(name="pool-status", resend_latest=True)
+        keep = [Broadcast(name=n) for n in ("resampler-requests", "proposals", "bounds-subscriptions", "results")]
+        store = BatteryPoolReferenceStore(
+            channel_registry=ChannelRegistry(name="verif"), resampler_subscription_sender=keep[0].new_sender(),
+            batteries_status_receiver=status.new_receiver(limit=1), power_manager_requests_sender=keep[1].new_sender(),
+            power_manager_bounds_subscription_sender=keep[2].new_sender(), power_distribution_results_fetcher=keep[3],
+            min_update_interval=timedelta(seconds=0.2), batteries_id=set(ids),
+        )
+        pool = BatteryPool(pool_ref_store=store, name="verif", priority=1, set_operating_point=False)
+        status_sender = status.new_sender()
+        loop.settle()
+        working: set = set()
+        rx = {}
+        latest = {}
+
+        def feed():
+            for b in ids:
+                d = OBJ_DATA[b]
+                api.push(fakes.bat(b, ts=loop.wall_now(), soc=d["soc"], cap=d["cap"], sl=d["sl"], su=d["su"], il=d["il"], iu=d["iu"]))
+                api.push(fakes.inv(b - 1, ts=loop.wall_now(), il=-1000.0, iu=1000.0))
+
+        def observe(after):
+            states = [{"cap": OBJ_DATA[b]["cap"], "soc": OBJ_DATA[b]["soc"], "lo": OBJ_DATA[b]["sl"], "hi": OBJ_DATA[b]["su"]} for b in ids]
+            rcap, rsoc = reference(states, {10 + i for i, b in enumerate(ids) if b in working})
+            exp = {"cap": rcap, "soc": rsoc, "bounds": (sum(OBJ_DATA[b]["il"] for b in working), sum(OBJ_DATA[b]["iu"] for b in working)) if working else None}
+            for k, r in rx.items():
+                while len(r):
+                    x = r.consume()
+                    if k == "bounds":
+                        latest[k] = None if x is None or x.inclusion_bounds is None else (x.inclusion_bounds.lower.as_watts(), x.inclusion_bounds.upper.as_watts())
+                    else:
+                        x = x.value
+                        latest[k] = None if x is None else (x.as_percent() if k == "soc" else x.as_watt_hours())
+                got = latest.get(k, "nothing-yet")
+                e = exp[k]
+                if got == "nothing-yet":
+                    ok = e is None
+                elif k == "bounds":
+                    ok = (got is None and e is None) or (got is not None and e is not None and all(math.isclose(a, b_, abs_tol=1e-9) for a, b_ in zip(got, e)))
+                else:
+                    ok = (got is None and e is None) or (got is not None and e is not None and math.isclose(got, e, rel_tol=1e-9, abs_tol=1e-9))
+                if not ok:
+                    v.append(("pool_metric_reflects_current_working_set", {"metric": k, "after": list(map(str, after)), "got": got, "expected": e,
+                                                                          "working": sorted(working)}))
+
+        feed()
+        loop.advance(STEP)
+        for e in hist:
+            if e[0] == "status":
+                working = set(e[1])
+                loop.create_task(status_sender.send(ComponentPoolStatus(working=set(e[1]), uncertain=set())))
+                loop.settle()
+            else:
+                k = e[1]
+                if k not in rx:
+                    fetcher = {"cap": lambda: pool.capacity, "soc": lambda: pool.soc, "bounds": lambda: pool._system_power_bounds}[k]()
+                    rx[k] = fetcher.new_receiver()
+                    loop.settle()
+                    feed()
+                    loop.advance(2.0 + 0.1)  # WAIT_FOR_COMPONENT_DATA_SEC
+            feed()
+            loop.advance(STEP)
+            feed()
+            loop.advance(STEP)
+            observe(e)
+            if v:
+                break
+        loop.create_task(store.stop())
+        loop.settle()
+    return v
+
+
+def pool_object_shard(args) -> Acc:
+    first, depth = args
+    acc = Acc()
+    for tail in itertools.product(OBJ_EVENTS, repeat=depth - 1):
+        hist = [first, *tail]
+        if not any(e[0] == "use" for e in hist):
+            continue
+        viol = run_pool_object_history(hist)
+        acc.evaluations += 1
+        acc.traces += 1
+        acc.transitions += len(hist)
+        acc.clauses["pool_metric_reflects_current_working_set"] += 1
+        if any(e[0] == "status" for e in hist):
+            acc.nontrivial += 1
+        acc.state(repr(("pool-object", hist)))
+        acc.outcome("pool-object")
+        for clause, detail in viol:
+            acc.violation(Violation(clause, {"driver": "pool-object", "history": [list(e) for e in hist]}, detail))
+    return acc
+
+
 def pool_shard(args) -> Acc:
     tier, first, depth = args
     acc = Acc()
@@ -382,6 +505,8 @@ def pool_shard(args) -> Acc:
 
 
 def _dispatch(args):
+    if args[0] == "pool-object":
+        return pool_object_shard(args[1:])
     if args[0] == "pool":
         return pool_shard(args[1:])
     return shard(args)
@@ -403,6 +528,8 @@ def run(tier: str, seed: int, workers: int):
     pool_depth = 4 if tier == "quick" else 4
     for e in pool_events(tier):
         shards.append(("pool", tier, e, pool_depth))
+    for e in OBJ_EVENTS:
+        shards.append(("pool-object", e, 3 if tier == "quick" else 4))
     acc = pmap_acc(_dispatch, shards, workers)
     acc.merge(pmap_acc(fetcher_shard, [None], 1))
     meta = {
@@ -411,7 +538,9 @@ def run(tier: str, seed: int, workers: int):
         "generated once; non-trivial = >= 2 working batteries with at least one missing metric somewhere; plus 16 NaN "
         "patterns through the real LatestBatteryMetricsFetcher on the virtual loop; plus the streaming path: two real SendOnUpdate "
         "instances (SoC, capacity) over the fake API, every history of depth 4 over {battery message (2-3 batteries x 2-3 data variants), "
-        "working-set update to every subset, 3 s silence}, the latest streamed value compared with the reference after every event",
+        "working-set update to every subset, 3 s silence}, the latest streamed value compared with the reference after every event; plus the "
+        "BatteryPool object itself over a real reference store: every history of depth 3 (quick) / 4 over {pool status naming a working set, "
+        "first use of capacity / soc / power bounds (which creates the aggregator lazily)} with both batteries streaming complete data",
         "assumptions": [
             "decided on the stated grid",
             "'lacks a required metric' is read per aggregate: capacity needs capacity and both SoC limits, SoC additionally the SoC",
@@ -426,6 +555,8 @@ def run(tier: str, seed: int, workers: int):
 def replay(case: dict):
     if case.get("driver") == "fetcher":
         return run_fetcher_case(tuple(case["nan_fields"]))
+    if case.get("driver") == "pool-object":
+        return run_pool_object_history([tuple(tuple(x) if isinstance(x, list) else x for x in e) for e in case["history"]])
     if case.get("driver") == "pool":
         hist = [tuple(tuple(x) if isinstance(x, list) else x for x in e) for e in case["history"]]
         return run_pool_history(hist, case["tier"])
